@@ -20,7 +20,7 @@ COV = os.environ.get("HAWK_VERIF_COV")
 if COV:
     SAN = SAN + ["--coverage", "-fprofile-update=atomic"]
 CDEFS = ["-DHAVE_CONFIG_H", "-DHAWK_HAVE_CFG_H", "-DHAWK_ENABLE_STATIC_MODULE",
-         "-DHAWK_BUILD_DEBUG", "-DHAWK_VERIF", "-fshort-wchar", "-w"]
+         "-DHAWK_BUILD_DEBUG", "-DHAWK_VERIF", "-fshort-wchar", "-w"] + (["-DHAWK_VERIF_COVERAGE"] if COV else [])
 LIBS = ["-lm", "-ldl", "-lpthread", "-lquadmath", "-lffi"]
 
 TRUSTED_BASE_COMMON = [
